@@ -2024,6 +2024,7 @@ def canonicalise(tree: ast.Module, rel: str = "") -> ast.Module:
                             from . import canon
                             canon.normalise_expression_forms(n, rf)
                             canon.thread_none_flag(n, known)
+                            canon.specialise_constant_tail(n, rf)
                             canon.sink_tail_into_branches(n, rf)
                             canon.sink_use_into_branches(n, rf, known)
                             canon.enumerate_to_counter(n, rf, known)
